@@ -148,6 +148,26 @@ def run(ctx):
     if not quick:
         vw += [("square", 0, 1, 2), ("bcc", 0, 1, 1), ("b2", 0, 1, 1), ("hex2d", 0, 1, 2), ("rect2site", 0, 2, 1)]
     for name, chem, shell, nth in vw:
+        if name in DISPLACED:
+            # displacement of the vacancy sublattice's sites inside the cell (orientation fixed by a seed)
+            import random
+            oseed = rng.randrange(10 ** 6)
+            sd = calc.vacancy(name, chem, shell, nth, random.Random(oseed), cache=False)
+            # data sets: three fixed ones (so that the recorded finding is exercised on every run) and one from the seed
+            datasets = [calc.vacancy_data(sd, random.Random(20260922 + j), 0, 2) for j in range(3)] + \
+                       [calc.vacancy_data(sd, rng, 0, 2)]
+            for dd, (k, wnew) in [(dd_, kw) for dd_ in datasets for kw in enumerate(DISPLACED[name])]:
+                Ld = calc.Lij(sd, dd)
+                st = dict(nodes[root], disp=k + 1)
+                try:
+                    L2 = displaced_vacancy(sd, wnew, oseed, dd)
+                except worlds.ProjectionError as ex:
+                    ctx.case("vacancy-disp|%s|%d" % (name, k))
+                    ctx.violation("dispmatch|%s|%d" % (name, k), str(ex), {"world": name})
+                    continue
+                add_case(cases, metas, sd, {nm: (a, b) for nm, a, b in zip(calc.NAMES4, Ld, L2)}, st,
+                         "namelast:vacancy-displaced|%s|N%d|variant%d" % (name, nth, k + 1),
+                         {k_: np.asarray(v).tolist() for k_, v in dd.items()}, tol=1e-4)
         s = calc.vacancy(name, chem, shell, nth, rng)
         d = calc.vacancy_data(s, rng, 0, 2)
         L0 = calc.Lij(s, d)
@@ -163,7 +183,7 @@ def run(ctx):
     ctx.sample({"protocol_nodes": len(nodes), "example_node": nodes[ids[-1]], "case": metas[0][0]})
 
 
-def add_case(cases, metas, s, pairs, st, label, data):
+def add_case(cases, metas, s, pairs, st, label, data, tol=2e-7):
     r = st["rate"]
     tens, asserts = {}, []
     for nm, (T0, T1) in pairs.items():
@@ -173,9 +193,51 @@ def add_case(cases, metas, s, pairs, st, label, data):
             terms = [(1, nm + "_node"), (-(2 ** r), nm + "_root")]
         else:
             terms = [(2 ** (-r), nm + "_node"), (-1, nm + "_root")]
-        asserts.append(rel.a_zero("%s_scales_as_2^rate" % nm, terms, 2e-7))
+        asserts.append(rel.a_zero("%s_scales_as_2^rate" % nm, terms, tol))
     kinds = [k for k in ("shV", "shS", "prV", "prS", "kt", "rate", "disp") if st[k]]
     cases.append(rel.make_case(s.w, tens, asserts, usegroup=False))
     metas.append(("%s|%s#%s" % (label, "+".join(kinds), sorted(st.items())),
                   "%s under transformation %s" % (label, {k: st[k] for k in kinds}),
                   {"transformation": st, "data": data}, bool(kinds)))
+
+
+def displaced_vacancy(s, wnew, oseed, d0):
+    """The same vacancy network and the same data on a crystal whose sites are displaced inside the cell
+    (connectivity in lattice form and all rates unchanged).  Classes are matched by lattice-form geometry, never by
+    index (stars are ordered by distance, which a displacement can reorder)."""
+    import random
+    from onsager import OnsagerCalc
+    from onsager import crystalStars as stars
+    c0, crys0, chem = s.calc, s.crys, s.chem
+    crys2, unit = worlds.realise(wnew, random.Random(oseed), orient=True)
+    zero = np.zeros(crys2.dim, dtype=int)
+    lat = crys0.jumpnetwork2lattice(chem, s.jumpnetwork)
+    jn2 = [[((i, j), crys2.pos2cart(np.array(R), (chem, j)) - crys2.pos2cart(zero, (chem, i))) for (i, j), R in cls]
+           for cls in lat]
+    c2 = OnsagerCalc.VacancyMediated(crys2, chem, s.sitelist, jn2, s.Nthermo)
+
+    def latt(PS):
+        return (int(PS.i), int(PS.j), tuple(int(x) for x in PS.R))
+    d2 = {k: np.array(v, dtype=float).copy() for k, v in d0.items()}
+    sv, psv = np.zeros(c2.thermo.Nstars), np.ones(c2.thermo.Nstars)
+    for k0, st in enumerate(c0.thermo.stars):
+        PS = c0.thermo.states[st[0]]
+        k2 = c2.thermo.starindex(stars.PairState.fromcrys_latt(crys2, chem, (PS.i, PS.j), PS.R))
+        if k2 is None:
+            raise worlds.ProjectionError("displacement changed the thermodynamic shell")
+        sv[k2], psv[k2] = d0["eneSV"][k0], d0["preSV"][k0]
+    d2["eneSV"], d2["preSV"] = sv, psv
+    for om, jn0, jnn in (("T1", c0.om1_jn, c2.om1_jn), ("T2", c0.om2_jn, c2.om2_jn)):
+        if len(jn0) != len(jnn):
+            raise worlds.ProjectionError("displacement changed the number of omega classes")
+        e, p = np.zeros(len(jnn)), np.ones(len(jnn))
+        key2 = {}
+        for k2, cls in enumerate(jnn):
+            for (a, b), dx in cls:
+                key2[(latt(c2.kinetic.states[a]), latt(c2.kinetic.states[b]))] = k2
+        for k0, cls in enumerate(jn0):
+            (a, b), dx = cls[0]
+            k2 = key2[(latt(c0.kinetic.states[a]), latt(c0.kinetic.states[b]))]
+            e[k2], p[k2] = d0["ene" + om][k0], d0["pre" + om][k0]
+        d2["ene" + om], d2["pre" + om] = e, p
+    return c2.Lij(*c2.preene2betafree(1.0, **d2))
